@@ -9,6 +9,7 @@ from vlib.api import H, cover
 from vlib.lift import b, t
 
 from twisted.internet import endpoints as _ep
+from twisted.python.compat import nativeString as _real_native
 
 PROPERTY = "C46"
 LEVEL = "model_checking"
@@ -29,7 +30,6 @@ EXPLANATION = ("real quoteStringArgument + _parse on symbolic text in each argum
                "with the text itself")
 
 
-
 def _native(s):
     # twisted.python.compat.nativeString for the lifted world (isinstance(x, bytes) there means LBytes)
     if isinstance(s, lbytes.LBytes):
@@ -37,7 +37,6 @@ def _native(s):
     return _real_native(s)
 
 
-from twisted.python.compat import nativeString as _real_native  # noqa: E402
 L = lift.lift("twisted.internet.endpoints", names=["_tokenize", "_parse"], overrides={"nativeString": _native})
 
 
